@@ -254,6 +254,7 @@ def case(req):
         res["init"] = init
         env = dict(os.environ)
         env["PYTHONPATH"] = _S["priv"]
+        env.update(req.get("env") or {})      # e.g. BUILD_TZ_CACHE (the documented way to regenerate the cache), PYTHONOPTIMIZE
         p = subprocess.run([sys.executable, "-c", "import dateparser; print(len(dateparser.timezone_parser._tz_offsets))"],
                            env=env, stdout=subprocess.PIPE, stderr=subprocess.PIPE, text=True, timeout=120)
         res["rc"] = p.returncode
